@@ -114,8 +114,8 @@ type jsonType interface {
 	addToNodeMap(j jsonType)
 	addToCemetery(j jsonType)
 	removeFromNodeMap(j jsonType)
-	getTargetByPaths(paths []string) (jsonType, errors.OrdaError)
-	getTargetFromPatch(path string) (jsonType, string, errors.OrdaError)
+	getTargetByPaths(from jsonType, paths []string) (jsonType, errors.OrdaError)
+	getTargetFromPatch(from jsonType, path string) (jsonType, string, errors.OrdaError)
 	isGarbage() bool
 	funeral(j jsonType, ts *model.Timestamp)
 	createJSONType(parent jsonType, v interface{}, ts *model.Timestamp) jsonType
@@ -209,8 +209,9 @@ func (its *jsonPrimitive) isGarbage() bool {
 	return false
 }
 
-func (its *jsonPrimitive) getTargetByPaths(paths []string) (jsonType, errors.OrdaError) {
-	var node jsonType = its.getRoot()
+// getTargetByPaths follows the paths starting at the node 'from'.
+func (its *jsonPrimitive) getTargetByPaths(from jsonType, paths []string) (jsonType, errors.OrdaError) {
+	node := from
 	for _, s := range paths {
 
 		switch node.getType() {
@@ -233,7 +234,8 @@ func (its *jsonPrimitive) getTargetByPaths(paths []string) (jsonType, errors.Ord
 	return node, nil
 }
 
-func (its *jsonPrimitive) getTargetFromPatch(path string) (jsonType, string, errors.OrdaError) {
+// getTargetFromPatch resolves the path of a JSONPatch operation relative to 'from', the node the patch is applied to.
+func (its *jsonPrimitive) getTargetFromPatch(from jsonType, path string) (jsonType, string, errors.OrdaError) {
 	paths := strings.Split(path, "/")
 
 	if len(paths) < 1 {
@@ -246,7 +248,7 @@ func (its *jsonPrimitive) getTargetFromPatch(path string) (jsonType, string, err
 	key := paths[len(paths)-1]
 	paths = paths[1 : len(paths)-1]
 
-	target, err := its.getTargetByPaths(paths)
+	target, err := its.getTargetByPaths(from, paths)
 	if err != nil {
 		return nil, "", err
 	}
